@@ -34,6 +34,8 @@ type World struct {
 	ViaXDR         bool   // requests go through XDR encoding and the registration table (C02 transport search)
 	// SkipLive: live handles (of a prepared state with tens of thousands of objects) that per-handle probes leave out
 	SkipLive map[string]bool
+	// ReqHorizon: if set, every single request gets this many scheduling points (more is a loop that never ends)
+	ReqHorizon int
 }
 
 // Prepared is a state that is expensive to reach (e.g. the inode table exhausted: 32765 creates), built once
@@ -328,7 +330,13 @@ func (w *World) Do(o fsx.Op) (r fsx.Reply, implFail bool, mis *reffs.Mismatch) {
 	if w.Mark {
 		w.Disk.Mark("inv", w.NOps, 0)
 	}
+	if w.ReqHorizon > 0 {
+		vrt.SetHorizon(vrt.Steps() + w.ReqHorizon)
+	}
 	r = fsx.Exec(w.api(), o, h, h2)
+	if w.ReqHorizon > 0 {
+		vrt.SetHorizon(vrt.Steps() + 100_000_000)
+	}
 	if w.Mark {
 		// an acknowledgement has stable semantics if the request succeeded, changed
 		// something (or was a COMMIT) and was not an UNSTABLE write
